@@ -75,6 +75,9 @@ class HampelFilter(_SeriesToSeriesTransformer):
         self.check_is_fitted()
         Z = check_series(Z)
 
+        # outliers are replaced in place below, so work on a copy of the input
+        Z = Z.copy()
+
         # multivariate
         if isinstance(Z, pd.DataFrame):
             for col in Z:
